@@ -488,6 +488,9 @@ CheckCb(tk, e, tk2) ==
     \cup V(step /\ HasHead /\ rstart /\ proc /\ tk2.fired # <<>> /\ e.pend[2] = Last(tk2.fired)[2] /\ e.pend[3] = Last(tk2.fired)[3]
              => e.pend[1] = Last(tk2.fired)[1],
            "C08", "the transition issued by a task does not name the task's origin as requester")
+    \cup V(HasHist /\ step /\ HasHead /\ rstart /\ proc /\ tk2.fired # <<>> /\ e.pend[2] = Last(tk2.fired)[2] /\ e.pend[3] = Last(tk2.fired)[3]
+             => e.pend[1] = Last(tk2.fired)[1],
+           "C11", "the request a task issued - recorded in the history when it survives - does not carry the task's origin")
     \cup V(step /\ HasHead /\ rstart /\ proc /\ pos = <<>> /\ ~(e.pend[1] = tk.lastreq[1] /\ e.pend[2] = tk.lastreq[2])
              => ~\E q \in 1 .. Len(pb) : pb[q] = e.pend /\ pb[q][1] = a0,
            "C08", "a task issued its transition but was not removed from the plan")
